@@ -44,6 +44,15 @@ pub fn anyf() -> f64 { f64::from_bits(kani::any::<u64>()) }
 #[cfg(kani)]
 pub fn anyfin() -> f64 { let x = anyf(); kani::assume(x.is_finite()); x }
 
+/// over-approximating stand-in for f64::sqrt used where the property does not depend on the root's value
+#[cfg(kani)]
+pub fn sqrt_stub(x: f64) -> f64 { let r: f64 = anyf(); kani::assume(!(x >= 0.0) || r >= 0.0); r }
+
+/// stand-in for <ExponentialMovingAverage as Next<f64>>::next in harnesses about a composite's own control flow:
+/// returns an arbitrary f64 (the EMA's own totality/values are decided by its own harnesses)
+#[cfg(kani)]
+pub fn ema_next_stub(_s: &mut ExponentialMovingAverage, _x: f64) -> f64 { anyf() }
+
 #[cfg(kani)]
 mod h {
     use super::*;
@@ -75,7 +84,9 @@ def tyname(name):
 class KB:
     """builds the body of one harness and remembers the order of nondeterministic draws"""
 
-    def __init__(s, name, unwind=None, family=None, bounds=None, required=True, solver=None):
+    def __init__(s, name, unwind=None, family=None, bounds=None, required=True, solver=None, stub_sqrt=False, stub_ema=False):
+        s.stub_sqrt = stub_sqrt or stub_ema
+        s.stub_ema = stub_ema
         s.name, s.unwind, s.family, s.bounds, s.required = name, unwind, family or name, bounds, required
         s.lines, s.draws, s.k = [], [], 0
         s.confirm = None            # callable(values: dict tag -> value) -> (bad: bool, replay lines, detail)
@@ -134,6 +145,8 @@ class KB:
         attrs = '    #[kani::proof]\n'
         if s.unwind: attrs += '    #[kani::unwind(%d)]\n' % s.unwind
         if s.solver: attrs += '    #[kani::solver(%s)]\n' % s.solver
+        if s.stub_sqrt: attrs += '    #[kani::stub(f64::sqrt, sqrt_stub)]\n'
+        if s.stub_ema: attrs += '    #[kani::stub(<ExponentialMovingAverage as Next<f64>>::next, ema_next_stub)]\n'
         body = '\n'.join('        ' + l for l in s.lines)
         return '%s    fn %s() {\n%s\n        kani::cover!(true);\n    }\n' % (attrs, s.name, body)
 
@@ -148,6 +161,8 @@ def lit(x):
 
 def decode(draws, vecs):
     vals = {}
+    for (kind, tag) in draws:              # draws after the failing point are not in the playback: any value will do
+        vals[tag] = '0x3ff8000000000000' if kind == 'f64' else (False if kind == 'bool' else 0)
     for (kind, tag), bs in zip(draws, vecs):
         n = int.from_bytes(bytes(bs), 'little')
         if kind == 'f64': vals[tag] = '0x%016x' % n
@@ -193,6 +208,7 @@ def run_kani(prop, harnesses, jobs=12, timeout_s=120, extra_args=(), cbmc_args=(
     d = write_project(prop, harnesses)
     env = dict(os.environ, CARGO_NET_OFFLINE='true')
     args = ['-j', str(jobs), '-Z', 'unstable-options', '--harness-timeout', '%ds' % timeout_s, '--exact'] + list(extra_args)
+    if any(h.stub_sqrt for h in harnesses): args += ['-Z', 'stubbing']
     for h in harnesses: args += ['--harness', 'h::' + h.name]
     if cbmc_args: args += ['--cbmc-args'] + list(cbmc_args)
     t0 = time.time()
@@ -217,7 +233,7 @@ def parse_output(out, names):
         st = 'error'
         if 'VERIFICATION:- SUCCESSFUL' in txt: st = 'ok'
         elif 'VERIFICATION:- FAILED' in txt: st = 'failed'
-        if 'TIMEOUT' in txt.upper() or 'timed out' in txt: st = 'timeout'
+        if 'CBMC timed out' in txt: st = 'timeout'
         checks = re.findall(r'Failed Checks: (.*)', txt)
         m = re.search(r'Verification Time: ([\d.]+)s', txt)
         cov = re.search(r'\*\* (\d+) of (\d+) cover properties satisfied', txt)
@@ -237,7 +253,7 @@ def parse_output(out, names):
             block.setdefault(th, []).append(m.group(2))
             continue
         block.setdefault(th, []).append(line)
-        if line.startswith('Verification Time') or 'Verification Time:' in line:
+        if line.startswith('Verification Time') or 'Verification Time:' in line or 'CBMC timed out' in line:
             finish(th); cur[th] = None
     for n in names:
         if n not in res:
@@ -254,6 +270,7 @@ def playback(prop, h, timeout_s=300):
     d = project_dir(prop)
     env = dict(os.environ, CARGO_NET_OFFLINE='true')
     args = ['-Z', 'concrete-playback', '--concrete-playback=print', '--exact', '--harness', 'h::' + h.name]
+    if h.stub_sqrt: args += ['-Z', 'stubbing']
     try:
         p = subprocess.run(_kani_cmd(d, args), cwd=d, env=env, capture_output=True, text=True, timeout=timeout_s)
     except subprocess.TimeoutExpired:
@@ -267,13 +284,22 @@ def playback(prop, h, timeout_s=300):
     return None, 'no playback test produced'
 
 
-def run_family_set(prop, harnesses, jobs=12, timeout_s=120, cbmc_args=(), stats=None):
+def run_family_set(prop, harnesses, jobs=12, timeout_s=120, cbmc_args=(), stats=None, max_playbacks=4):
     """run harnesses, confirm failures natively; -> list of family results"""
     t0 = time.time()
     res = run_kani(prop, harnesses, jobs, timeout_s, cbmc_args=cbmc_args)
     out = []
     if res.get('__build_failed__'):
         return [fam_result('K:%s build' % prop, 'K', 'undecided', detail='harness crate does not build against /repo: ' + res['__log__'][-1200:])]
+    failing = [h for h in harnesses if res[h.name]['status'] == 'failed' and 'unwinding assertion' not in '; '.join(res[h.name]['checks'])]
+    failing.sort(key=lambda h: res[h.name]['time'] or 1e9)
+    to_play = failing[:max_playbacks]
+    played = {}
+    if to_play:
+        from concurrent.futures import ThreadPoolExecutor
+        with ThreadPoolExecutor(max_workers=3) as pool:
+            for h, pb in zip(to_play, pool.map(lambda hh: playback(prop, hh), to_play)):
+                played[h.name] = pb
     for h in harnesses:
         r = res[h.name]
         base = dict(bounds=h.bounds, obligations=1, discharged=0, symbolic_inputs=len(h.draws), required=h.required,
@@ -293,7 +319,10 @@ def run_family_set(prop, harnesses, jobs=12, timeout_s=120, cbmc_args=(), stats=
         if 'unwinding assertion' in checks:
             out.append(fam_result(h.family, 'K', 'undecided', detail='unwinding assertion failed (bound too small for this code): ' + checks, **base))
             continue
-        vecs, what = playback(prop, h)
+        if h.name not in played:
+            out.append(fam_result(h.family, 'K', 'undecided', detail='kani reports failed checks [%s]; counterexample not extracted (only the %d cheapest failing harnesses are replayed)' % (checks, max_playbacks), **base))
+            continue
+        vecs, what = played[h.name]
         if vecs is None or h.confirm is None:
             out.append(fam_result(h.family, 'K', 'undecided', detail='kani reports failed checks [%s] but no counterexample could be extracted/confirmed (%s)' % (checks, what), **base))
             continue
